@@ -92,7 +92,9 @@ type c08Claim struct {
 
 func (y *c08Sys) Root() *c08State {
 	w1 := newL1TwoBridges(c08Period)
-	w2 := world.NewL2(world.L2Options{Accounts: map[string]sdk.Coins{"alice": nil, "bob": nil, "executor": nil, "admin": nil}})
+	w2 := world.NewL2(world.L2Options{Accounts: map[string]sdk.Coins{"alice": nil, "bob": nil, "executor": nil, "admin": nil},
+		// two executors are listed; the one that relays is the first, and the list is not sorted
+		Executors: world.ExecutorsWithSpare("executor")})
 	return &c08State{c1: w1.Ctx, c2: w2.Ctx, w1: w1, w2: w2, l2blk: 1}
 }
 
